@@ -167,8 +167,8 @@ func keysOf(m map[string]bool) []string {
 }
 
 // verifyFunc generates the verification conditions of one function under contract.
-func verifyFunc(prog *Program, key string) *FuncResult {
-	res := &FuncResult{Name: key}
+func verifyFunc(prog *Program, key string) (res *FuncResult) {
+	res = &FuncResult{Name: key}
 	fn := prog.funcByKey[key]
 	fc := prog.contracts.Funcs[key]
 	if fn == nil {
@@ -293,7 +293,9 @@ func verifyFunc(prog *Program, key string) *FuncResult {
 	}
 	res.Obls = ex.obls
 	for _, n := range ex.declOrder {
-		res.Decls = append(res.Decls, ex.decls[n])
+		if d := ex.decls[n]; d != "" {
+			res.Decls = append(res.Decls, d)
+		}
 	}
 	res.Facts = ex.facts
 	res.Errors = dedupe(ex.errs)
